@@ -298,25 +298,23 @@ fn aggregate(runs: &[Value]) -> Agg {
     a
 }
 
-fn fan(def: &CheckDef, tier: Tier, seed: u64, runs: u64, workers: usize, cap_s: u64, stop_first: bool) -> crate::supervise::FanOut {
+fn fan(eng: &Engine, def: &CheckDef, tier: Tier, seed: u64, runs: u64, workers: usize, cap_s: u64, stop_first: bool) -> crate::supervise::FanOut {
     fan_out(FanCfg {
         exe: std::env::current_exe().unwrap(),
         args: vec!["worker".into(), def.id.into(), tier.name().into(), seed.to_string()],
         runs,
         workers,
         wall_cap: Duration::from_secs(cap_s),
-        // C07 trials are millisecond-scale and may spin without any storage call on damaged data:
-        // a short silence window keeps such observations cheap
-        hang_s: crate::env_u64("VERIF_HANG_S", if def.id == "C07" { 4 } else { 30 }),
+        hang_s: crate::env_u64("VERIF_HANG_S", (eng.hang_s)(def.id)),
         max_deaths_per_worker: 30,
         stop_on_first_violation: stop_first,
     })
 }
 
 /// Runs the first `n` runs twice with different worker counts and compares event-log hashes and verdicts.
-fn determinism(def: &CheckDef, tier: Tier, seed: u64, n: u64) -> Result<u64, String> {
-    let a = fan(def, tier, seed, n, 5, 300, false);
-    let b = fan(def, tier, seed, n, 2, 300, false);
+fn determinism(eng: &Engine, def: &CheckDef, tier: Tier, seed: u64, n: u64) -> Result<u64, String> {
+    let a = fan(eng, def, tier, seed, n, 5, 300, false);
+    let b = fan(eng, def, tier, seed, n, 2, 300, false);
     let (ha, hb) = (aggregate(&a.runs).hashes, aggregate(&b.runs).hashes);
     if ha.len() as u64 != n || hb.len() as u64 != n {
         // deaths make runs incomplete; compare what both have
@@ -335,7 +333,7 @@ fn determinism(def: &CheckDef, tier: Tier, seed: u64, n: u64) -> Result<u64, Str
 
 pub fn selftest(eng: &Engine, id: &str, n: u64) -> i32 {
     let Some(def) = (eng.find)(id) else { return 2 };
-    match determinism(&def, Tier::Quick, crate::seed_from_env(), n) {
+    match determinism(eng, &def, Tier::Quick, crate::seed_from_env(), n) {
         Ok(c) => {
             println!("selftest {id}: {c} runs compared, identical");
             0
@@ -373,7 +371,7 @@ pub fn check(eng: &Engine, id: &str, tier: Tier) -> i32 {
     // ---- search
     let runs = crate::env_u64("VERIF_RUNS", (def.runs)(tier));
     let cap = crate::budget_s((def.wall_cap_s)(tier));
-    let out = fan(&def, tier, seed, runs, crate::workers(), cap, false);
+    let out = fan(eng, &def, tier, seed, runs, crate::workers(), cap, false);
     let agg = aggregate(&out.runs);
 
     let mut harness: Vec<String> = out.harness_errors.clone();
@@ -410,7 +408,7 @@ pub fn check(eng: &Engine, id: &str, tier: Tier) -> i32 {
         Tier::Quick => 16.min(runs),
         Tier::Thorough => 300.min(runs),
     };
-    let st = if new.is_empty() { determinism(&def, tier, seed, st_runs) } else { Ok(0) };
+    let st = if new.is_empty() { determinism(eng, &def, tier, seed, st_runs) } else { Ok(0) };
     if let Err(e) = &st {
         harness.push(format!("determinism self-test failed: {e}"));
     }
@@ -471,6 +469,11 @@ pub fn check(eng: &Engine, id: &str, tier: Tier) -> i32 {
             *hist.entry(c.2.clone()).or_insert(0) += 1;
         }
         println!("violation classes: {hist:?}");
+        if std::env::var("VERIF_DEBUG").is_ok() {
+            for c in &new {
+                println!("violation: run {} trial {} {} :: {}", c.0, c.1, c.2, c.3.chars().take(200).collect::<String>());
+            }
+        }
     }
     if let Some(first) = new.first() {
         let (run, _trial, class, detail, plan) = (first.0, first.1, &first.2, &first.3, &first.4);
